@@ -1,0 +1,11 @@
+//go:build !verif
+
+package lungo
+
+// verifPoint marks a scheduling point of the locking protocol for the
+// verification harness. Without the "verif" build tag it is empty and
+// inlined away.
+func verifPoint(string, *Engine) {}
+
+// verifStreamPoint is the stream variant of verifPoint.
+func verifStreamPoint(string, *Stream) {}
